@@ -439,15 +439,29 @@ func runOnce(c Case, T time.Duration) (v kit.Verdict) {
 			return v
 		}
 		conn.Close()
+	case "target-rst":
+		// the target goes away abortively: the client must still learn that the
+		// stream is over (EOF or reset), not wait for the idle timeout
+		netkit.Reset(tc)
+		if !expectEOF(clientIn, "client", "target-reset") {
+			return v
+		}
+		conn.Close()
+	case "client-rst":
+		netkit.Reset(conn)
+		if !expectEOF(targetIn, "target", "client-reset") {
+			return v
+		}
+		tc.Close()
 	case "both":
 		tc.Close()
 		conn.Close()
 	}
 	// final content check (after the held-back halves)
-	if got := targetIn.bytes(); !bytes.Equal(got, c2t) && c.Closer != "both" {
+	if got := targetIn.bytes(); !bytes.Equal(got, c2t) && c.Closer != "both" && !strings.HasSuffix(c.Closer, "-rst") {
 		v.Addf("C04/transfer/"+sh+"/client-to-target-bytes-differ-at-end", "%s", kit.Diff(c2t, got))
 	}
-	if got := clientIn.bytes(); !bytes.Equal(got, t2c) && c.Closer != "both" {
+	if got := clientIn.bytes(); !bytes.Equal(got, t2c) && c.Closer != "both" && !strings.HasSuffix(c.Closer, "-rst") {
 		v.Addf("C04/transfer/"+sh+"/target-to-client-bytes-differ-at-end", "%s", kit.Diff(t2c, got))
 	}
 	// release: the handler must finish, so Close returns
@@ -498,7 +512,7 @@ func genCase(t *rapid.T) Case {
 		C2T:    genStream(t, "c2t", max),
 		T2C:    genStream(t, "t2c", max),
 		Early:  rapid.SampledFrom([]string{"none", "none", "coalesced", "split"}).Draw(t, "early"),
-		Closer: rapid.SampledFrom([]string{"client-half-early", "target-half-early", "client-half", "target-half", "client-full", "target-full", "both"}).Draw(t, "closer"),
+		Closer: rapid.SampledFrom([]string{"client-half-early", "target-half-early", "client-half", "target-half", "client-full", "target-full", "both", "target-rst", "client-rst"}).Draw(t, "closer"),
 		Route:  rapid.SampledFrom([]string{"direct", "direct", "downstream"}).Draw(t, "route"),
 	}
 	if c.Early != "none" {
@@ -539,7 +553,7 @@ func classes(c Case) []string {
 
 var propTunnel = &kit.Prop[Case]{
 	ID: "C04", Name: "tunnel",
-	Rule: "a blind CONNECT tunnel (direct or via a harness downstream proxy) carrying two concurrently written byte streams (0 B..256 KiB quick / 4 MiB thorough, drawn write sizes and pauses), early data coalesced with or split across the CONNECT head, and one of seven ways of ending it (half-close before/after the peer finished, full close by either end, both); non-trivial = both directions non-empty, or > 64 KiB, or early data, or an explicit closer",
+	Rule: "a blind CONNECT tunnel (direct or via a harness downstream proxy) carrying two concurrently written byte streams (0 B..256 KiB quick / 4 MiB thorough, drawn write sizes and pauses), early data coalesced with or split across the CONNECT head, and one of nine ways of ending it (half-close before/after the peer finished, full close or reset by either end, both); non-trivial = both directions non-empty, or > 64 KiB, or early data, or an explicit closer",
 	Gen:  genCase, Run: run, NonTrivial: nontrivial, Classes: classes, Journal: true,
 	Gates: map[string]float64{"early-data": 0.25, "both-directions": 0.5, "route-downstream": 0.15},
 }
